@@ -1,0 +1,15 @@
+//go:build verif
+
+package ants
+
+// VerifHook, when set, is called at the scheduling points of runTaskOnce:
+// site 1 = inner worker, handler returned and the attempt is not yet timed out, before publishing;
+// site 2 = dispatcher, the attempt's context is done, before deciding the attempt.
+// site 3 = dispatcher, closure handed to an inner worker, before waiting for the outcome.
+var VerifHook func(site int)
+
+func verifYield(site int) {
+	if h := VerifHook; h != nil {
+		h(site)
+	}
+}
